@@ -10,6 +10,7 @@ EXTENDS IntCodecRef, Json
 Widths == {32, 64}          \* constants are emitted for both widths
 VecWidths == @@VECW@@        \* widths for which string vectors are emitted
 Delta == @@DELTA@@           \* MaxInt +- d * 10^p for d <= Delta
+DoubleCuts == @@DOUBLE@@     \* also every pair of cut positions of a fragmented chunk-size line
 
 Rep(d, n) == [j \in 1..n |-> d]
 DecBytes(ds) == [j \in 1..Len(ds) |-> 48 + ds[j]]
@@ -86,7 +87,19 @@ WriteBodies(w) == UNION { { [j \in 1..l |-> IF j = 1 THEN 7 ELSE 15], <<1>> \o R
 Interferers(w, l) == { Rep(5, 1), Rep(5, l), Rep(5, MH(w) + 1) }
 HexWInputs(w) == UNION { [k : {"hexw"}, w : {w}, n : {b}, m : Interferers(w, Len(b)), free : 0..(Len(b) + 1)] : b \in WriteBodies(w) }
 
-Inputs == UNION { HexWInputs(w) : w \in VecWidths } \cup [k : {"consts"}, w : Widths]
+\* ---- hex READ side, FRAGMENTED delivery: the chunk-size line arrives in several reads -------
+\* The reference is defined on the concatenation, i.e. the outcome must not depend on how the
+\* transport cuts the line: over-long sizes are rejected and values are exact for EVERY cut.
+FragBodies(w) == UNION { { Rep(15, l), <<1>> \o Rep(0, l - 1), Rep(0, MaxOf(l - 3, 0)) \o SubSeq(<<10, 11, 12>>, 1, MinOf(l, 3)) }
+                         : l \in {1, 3, MH(w) - 1, MH(w), MH(w) + 1, MH(w) + 2, MH(w) + 5, 2 * MH(w) + 2} }
+FragLine(b) == HexBytes(b, FALSE) \o <<13, 10>>
+\* fragment lengths: one piece, one byte per read, every single cut, (DOUBLE) every pair of cuts
+Frags(len) == { <<len>>, Rep(1, len) } \cup { <<c, len - c>> : c \in 1..(len - 1) }
+              \cup (IF DoubleCuts THEN { <<c, d - c, len - d>> : <<c, d>> \in { x \in (1..(len - 1)) \X (1..(len - 1)) : x[1] < x[2] } }
+                     ELSE {})
+HexFInputs(w) == UNION { [k : {"hexf"}, w : {w}, s : {FragLine(b)}, frags : Frags(Len(b) + 2)] : b \in FragBodies(w) }
+
+Inputs == UNION { HexWInputs(w) \cup HexFInputs(w) : w \in VecWidths } \cup [k : {"consts"}, w : Widths]
           \cup UNION { [k : {"dec"}, w : {w}, s : DecInputs(w)] : w \in VecWidths }
           \cup UNION { [k : {"hex"}, w : {w}, s : HexInputs(w)] : w \in VecWidths }
 
@@ -99,6 +112,8 @@ Vec(x) ==
                        bufok |-> b.ok, bufval |-> b.val, bufn |-> b.n, buferr |-> b.err]
     \* expected: exactly the digits of n reach the underlying writer (HexWrite!WireExact)
     [] x.k = "hexw" -> [k |-> "hexw", w |-> x.w, val |-> x.n, m |-> x.m, free |-> x.free]
+    [] x.k = "hexf" -> LET r == RefReadHex(HexSyms(x.s), MH(x.w)) IN
+                       [k |-> "hexf", w |-> x.w, s |-> x.s, frags |-> x.frags, ok |-> r.ok, val |-> r.val, n |-> r.n]
     [] x.k = "hex" -> LET r == RefReadHex(HexSyms(x.s), MH(x.w)) IN
                       [k |-> "hex", w |-> x.w, s |-> x.s, ok |-> r.ok, val |-> r.val, n |-> r.n]
 
@@ -139,6 +154,12 @@ HexOK(s, w) == LET r == RefReadHex(HexSyms(s), MH(w)) IN
 RefInv == CASE inp.k = "consts" -> ConstsOK(inp.w)
             [] inp.k = "dec" -> DecOK(inp.s, inp.w)
             [] inp.k = "hex" -> HexOK(inp.s, inp.w)
+            \* a fragmentation is a partition of the line into non-empty reads; the expected
+            \* outcome is that of the whole line
+            [] inp.k = "hexf" -> /\ HexOK(inp.s, inp.w)
+                                 /\ \A j \in 1..Len(inp.frags) : inp.frags[j] >= 1
+                                 /\ FoldLeft(LAMBDA a, b : a + b, 0, inp.frags) = Len(inp.s)
+                                 /\ (RefReadHex(HexSyms(inp.s), MH(inp.w)).ok <=> Len(inp.s) - 2 <= MH(inp.w))
             \* a value writeHexInt can be given: canonical, at most MH+1 digits, below 2^(w-1)
             [] inp.k = "hexw" -> /\ StripH(inp.n) = inp.n /\ Len(inp.n) <= MH(inp.w) + 1
                                  /\ (Len(inp.n) = MH(inp.w) + 1 => inp.n[1] <= 7)
